@@ -137,6 +137,8 @@ def use_multi_process(cfg, cores, rec, sched):
 
     class Shim:
         """connection.wait that reports a harness-chosen subset / order of the really ready pipes (a legal result)."""
+        calls = 0
+
         def __getattr__(self, name):
             return getattr(real_connection, name)
 
@@ -151,6 +153,18 @@ def use_multi_process(cfg, cores, rec, sched):
                 time.sleep(0.002)
                 ready = real_connection.wait(pipes, 0) or ready
             ready = list(ready)
+            if policy == "script":
+                # systematic exploration: the k-th call that has a real choice reports the pipe named by the script
+                import time
+                time.sleep(0.003)
+                ready = list(real_connection.wait(pipes, 0) or ready)
+                ready.sort(key=lambda p: p.fileno())
+                if len(ready) == 1:
+                    return ready
+                script = (sched or {}).get("script", [])
+                k = Shim.calls
+                Shim.calls += 1
+                return [ready[(script[k] if k < len(script) else 0) % len(ready)]]
             if policy in ("one", "linger"):
                 return [rnd.choice(ready)]
             if policy == "reverse":
